@@ -168,3 +168,22 @@ Proof.
   exists [s2l "target_feature=""sse"""; s2l "target_feature=""sse2"""], (s2l "target_feature"), (s2l "sse").
   vm_compute. split; [left; reflexivity | reflexivity].
 Qed.
+
+(* ------------------------------------------------------------------ *)
+(* a Dependency object answers every read by the requirement in force *)
+Lemma dep_run_app req ops1 ops2 :
+  dep_run req (ops1 ++ ops2) = dep_run req ops1 ++ dep_run (dep_current req ops1) ops2.
+Proof.
+  revert req. induction ops1 as [|o ops1 IH]; intro req; [reflexivity|].
+  cbn [app dep_run dep_current fold_left]. destruct (dep_read req o); cbn [app]; rewrite IH; reflexivity.
+Qed.
+Definition last_update (req : str) (ops : list dep_op) : str :=
+  fold_left (fun r o => match o with DUpdate r' => r' | _ => r end) ops req.
+Lemma dep_current_last req ops : dep_current req ops = last_update req ops.
+Proof. reflexivity. Qed.
+(* reads after any sequence of operations depend only on the last update *)
+Theorem dep_reads_by_requirement_in_force req ops o x :
+  dep_read (last_update req ops) o = Some x -> dep_run req (ops ++ [o]) = dep_run req ops ++ [x].
+Proof.
+  intro H. rewrite dep_run_app, dep_current_last. cbn [dep_run]. rewrite H. reflexivity.
+Qed.
